@@ -857,6 +857,9 @@ pub fn alphabet(ty: VariantType, codec: Codec, large: bool) -> Vec<LV> {
         VariantType::Attributes => {
             out.push(lv("empty", Attributes::new()));
             out.push(lv("one-bool", Attributes::new().with("a", true)));
+            // two maps that are `==` and differ in bits
+            out.push(lv("zeros", Attributes::new().with("v", Variant::Vector3(Vector3::new(0.0, 0.0, 0.0))).with("z", Variant::Float64(0.0))));
+            out.push(lv("negative-zeros", Attributes::new().with("v", Variant::Vector3(Vector3::new(-0.0, 0.0, -0.0))).with("z", Variant::Float64(-0.0))));
             out.push(lv(
                 "mixed",
                 Attributes::new()
